@@ -18,3 +18,31 @@ add("C11", "hdmc/hemc", "model_checking",
     "Same complete grid as C10; first-poll time, completion time and drop of every scripted attempt are recorded in virtual time and checked against Q1-Q5 (order/at-most-once, initial batch bound, every later start justified by an elapsed stagger delay or a failed running attempt, started as soon as either happens, overall deadline met).",
     "Initial concurrency 0 is read as 'the first attempt may start at once'. Same virtual-time assumptions as C10.",
     "exhaustive grid execution of the implementation in virtual time, predicate oracle", "DESIGN.md §4, §8 C11")
+
+_POOL_NOTE = "Granularity is one poll / one drop / one environment answer on a single thread (intra-poll pre-emption at lock boundaries of a multi-threaded runtime is not explored). The harness connection models hyper's sender by open/busy/upgraded flags; the real pool, checkout, waiter, connector and idle code is executed unmodified through the public ConnectionPoolService API. N=2 requests with the full alphabet is searched to fixpoint; N=3 (thorough: also an N=4 slice) is searched over all histories up to a stated depth bound on a property-specific slice of the alphabet. Fingerprint merging is validated by a successor-level merge audit (1 in 8 merges in quick tier, every merge in thorough)."
+_POOL_TECH = "explicit-state BFS over event histories of the real pool (stateful exploration of the implementation, fingerprint merging with merge audit)"
+
+add("C02", "hdmc/poolmc", "model_checking",
+    "Every reachable state of the real connection pool under the event alphabet issue/poll/cancel/dial ok|fail/handshake ok|fail/respond/conn-ready/conn-close/upgrade/background-task step is visited breadth-first; at every hand-off of a connection to a request the harness connection's holder count, busy flag and upgraded flag are checked, and in every state a non-multiplexed connection has at most one live handle.",
+    _POOL_NOTE, _POOL_TECH, "DESIGN.md §3, §8 C02")
+add("C03", "hdmc/poolmc", "model_checking",
+    "Deadlock-freedom on the explored graph: in every quiescent state (no woken task, pending dial/handshake, unanswered exchange or busy connection) every live request is resolved; in every state polling a live unwoken request on a side replay never makes progress (lost wake-up audit); from every quiescent state a fresh probe request per origin and protocol completes when every dial succeeds. Dial/handshake failures and cancellations at every step are branches of the alphabet; both continue_after_preemption settings.",
+    _POOL_NOTE + " Fairness: dials, handshakes, exchanges and busy connections eventually resolve.", _POOL_TECH, "DESIGN.md §3, §8 C03")
+add("C04", "hdmc/poolmc", "model_checking",
+    "On the same state graph: a request issued while an open unexpired idle connection for its origin is pooled never dials; an HTTP/2 dial never starts while another HTTP/2 dial for the origin is in flight; an HTTP/2 request issued while an open pooled HTTP/2 connection exists neither dials nor is carried on a new connection; cancelling a request that has not used a connection never starts a dial and never destroys the healthy pooled connection it held.",
+    _POOL_NOTE + " 'Minimum the history requires' is made precise as these four invariants (the differential re-execution without the cancelled request sketched in the design was not built).", _POOL_TECH, "DESIGN.md §3, §8 C04")
+add("C05", "hdmc/poolmc", "model_checking",
+    "On the state graph extended with a frozen pool clock and Tick(T/2)/Tick(2T) events, idle_timeout in {None, 0, T}: at every hand-off the connection was not closed before the request was issued, not closed before its hand-back to the pool, and had not been idle longer than T when the request was issued. Peer close is explored while held, busy, idle and queued for hand-back; both is_open flavours (open, open-and-ready).",
+    _POOL_NOTE + " Time is the crate's pool clock behind the verif-hooks clock seam (frozen, moved only by Tick).", _POOL_TECH, "DESIGN.md §3, §8 C05")
+add("C06", "hdmc/poolmc", "model_checking",
+    "State graphs over origin menus differing in scheme, port, host and letter case (pairs at N=2 to fixpoint, a triple and a pair at N=3 to a depth bound): at every hand-off the connection's dialled scheme+authority equals the request's (host compared case-insensitively per RFC 3986); distinct keys never share a pool token.",
+    _POOL_NOTE, _POOL_TECH, "DESIGN.md §3, §8 C06")
+add("C14", "hdmc/poolmc", "model_checking",
+    "On the state graph, for both continue_after_preemption values and both protocols: a request with a released connection delivered to it is woken and its next poll uses that connection; when a request abandons its own in-flight attempt (cancel or pre-emption) the attempt is continued by a background task and its connection reaches the pool (true) or is dropped with no task left behind (false).",
+    _POOL_NOTE, _POOL_TECH, "DESIGN.md §3, §8 C14")
+add("C15", "hdmc/poolmc", "model_checking",
+    "Bursts of k=3 (thorough 4) concurrent HTTP/1.1 requests to one origin with every release order, max_idle_per_host in {0,1,2,k-1,k,k+1}, plus peers closing idle connections and a mixed two-origin H1/H2 run: in every reachable state the idle list of every origin is no longer than the bound (read through the pool snapshot hook).",
+    _POOL_NOTE, _POOL_TECH, "DESIGN.md §3, §8 C15")
+add("C19", "hdmc/hemc+poolmc", "model_checking",
+    "Part 1: the real Timeout service in paused virtual time over a complete grid of inner completion time x inner result x duration x caller's first poll: result, completion time, inner-drop and no-poll-after-resolution. Part 2: dropping the inner future is applied as Cancel(r) in every reachable state of the pool graph (every stage a pooled request can be in) and from every quiescent state a fresh probe request to the origin must complete.",
+    _POOL_NOTE + " The composition of TimeoutLayer with the pool is argued (the timeout's only effect on the pool is dropping the inner future), not run as one system.", "exhaustive virtual-time grid + explicit-state BFS of the real pool", "DESIGN.md §8 C19")
